@@ -428,6 +428,7 @@ pub fn run(args: &[&str]) -> String {
         }
         "hand" => op_hand(args[1], args[2].parse().unwrap(), args[3]),
         "stats" => op_stats(args[1]),
+        "fullq" => op_fullq(args[1].parse().unwrap(), args[2].parse().unwrap()),
         "reconn" => op_reconn(args[1].parse().unwrap()),
         "name" => {
             // the piece file name the implementation derives from a listed hash
@@ -834,6 +835,12 @@ pub fn gen(r: &mut Rng, n: usize, flavor: &str) -> Vec<String> {
             out.push(format!("name {}", hex(&h)));
         }
     }
+    if flavor == "C20" {
+        // silent connections whose end falls into a moment when the manager is busy (its command channel full)
+        for (fill, drain) in [(355u64, 365u64), (0, 400), (359, 361), (300, 1000)] {
+            out.push(format!("fullq {} {}", fill, drain));
+        }
+    }
     if flavor == "C08" {
         // a connection the client opened, lost after a valid session: nothing without a handshake afterwards either
         out.push("reconn 2800".to_string());
@@ -876,6 +883,56 @@ pub fn gen(r: &mut Rng, n: usize, flavor: &str) -> Vec<String> {
     }
     out.truncate(n.max(14));
     out
+}
+
+/// `fullq <fill at s> <drain at s>`: a connection on which nothing ever arrives, and a manager that is busy: its command
+/// channel (capacity 2 here) is full from `fill` on and is drained at `drain`. The task must still report its end
+/// (`KillReq`) - the only way the manager learns that the connection is gone and releases its state.
+fn op_fullq(fill_at: u64, drain_at: u64) -> String {
+    let r = catch(|| {
+        let rt = tokio::runtime::Builder::new_current_thread().enable_all().start_paused(true).build().unwrap();
+        rt.block_on(async move {
+            let (cmd_tx, mut cmd_rx) = mpsc::channel::<PeerCmd>(2);
+            let (_broad_tx, broad_rx) = broadcast::channel::<BroadCmd>(8);
+            let (ours, theirs) = tokio::io::duplex(1 << 16);
+            let filler = cmd_tx.clone();
+            let mut handler = PeerHandler::new(ADDR.to_string(), [1u8; 20], None, [7u8; 20], 4, cmd_tx, broad_rx);
+            let task = tokio::spawn(async move { handler.verif_run_mem(theirs).await });
+            let mut now = 0u64;
+            let mut step_to = |t: u64, now: &mut u64| {
+                let d = t.saturating_sub(*now);
+                *now = t.max(*now);
+                d
+            };
+            let d = step_to(fill_at, &mut now);
+            tokio::time::sleep(std::time::Duration::from_secs(d)).await;
+            for _ in 0..2 {
+                let _ = filler.try_send(PeerCmd::RecvChoke { addr: "10.9.9.9:1".to_string() });
+            }
+            let d = step_to(drain_at, &mut now);
+            tokio::time::sleep(std::time::Duration::from_secs(d)).await;
+            // the manager catches up
+            let mut kill = false;
+            let deadline = tokio::time::Instant::now() + std::time::Duration::from_secs(30);
+            loop {
+                match tokio::time::timeout_at(deadline, cmd_rx.recv()).await {
+                    Ok(Some(PeerCmd::KillReq { .. })) => {
+                        kill = true;
+                        break;
+                    }
+                    Ok(Some(_)) => continue,
+                    _ => break,
+                }
+            }
+            for _ in 0..20 {
+                tokio::task::yield_now().await;
+            }
+            let finished = task.is_finished();
+            drop(ours);
+            format!("kill={} finished={}", if kill { 'y' } else { 'n' }, if finished { 'y' } else { 'n' })
+        })
+    });
+    r.unwrap_or_else(|_| "P".into())
 }
 
 /// `stats <ops ','-separated: d<n> u<n> x t>`: the statistics of a real connection task (no connection needed) driven
